@@ -76,6 +76,17 @@ def build_service(rec, behaviours=None):
             rec.enter('chunks', n, size)
             return [bytes([65 + (i % 26)]) * (size or 1) for i in range(n or 0)]
 
+        @rpc(Integer, Integer, Unicode, _returns=ByteArray)
+        def stream(ctx, n, fail_after, how):
+            # a streamed body written as a generator function, optionally failing after `fail_after` chunks
+            rec.enter('stream', n, fail_after, how)
+            for i in range(n or 0):
+                if how and i == fail_after:
+                    if how == 'fault':
+                        raise Fault('Client.MidStream', 'failed after %d chunks' % i)
+                    raise RuntimeError('secret-midstream')
+                yield bytes([97 + (i % 26)]) * 5
+
         @rpc(Unicode, Unicode, _returns=Integer)
         def fail(ctx, code, msg):
             rec.enter('fail', code, msg)
@@ -107,6 +118,18 @@ def build_service(rec, behaviours=None):
             else:
                 raise RuntimeError('secret-%s' % token)
             yield 1
+
+        @rpc(Unicode, _returns=Iterable(Integer))
+        def gboom_late(ctx, token):
+            # ... and failing only after the first item: the response is already being built
+            rec.enter('gboom_late', token)
+            yield 1
+            f = beh.get('boom')
+            if f is not None:
+                f(token)
+            else:
+                raise RuntimeError('secret-%s' % token)
+            yield 2
 
         @rpc(_returns=Integer)
         def noargs(ctx):
